@@ -22,6 +22,19 @@ def gen(rnd, tier):
                            [{"op": "write", "s": R.join_view(a)}, {"op": "flush"}, {"op": "write", "s": R.join_view(b)}, {"op": "write", "s": R.join_view(a)}, {"op": "flush"},
                             {"op": "write", "s": R.join_view(b)}, {"op": "flush"}]
                     cases.append({"w0": w, "h0": h, "history": [[46] * w], "used": min(1, h - 1), "ops": ops2})
+    # large terminals and tall views: three-digit cursor movements (more than 99 lines rendered, more than 120 columns)
+    for w, h, n in ((200, 60, 58), (132, 110, 105), (121, 51, 51), (300, 120, 118)) if tier == "quick" else ((200, 60, 58), (132, 110, 105), (121, 51, 51), (300, 120, 118), (250, 101, 100), (500, 200, 150)):
+        for alt in (False, True):
+            v1 = [[65 + (i % 26)] * (1 + (i * 7) % (w + 3)) for i in range(n)]
+            v2 = [list(l) for l in v1]
+            v2[0] = [122] * (w - 1)
+            v2[n // 2] = []
+            v2[-1] = [121] * w
+            v3 = v2[:n - 3]
+            ops = [{"op": "resize", "w": w, "h": h}] + ([{"op": "enteralt"}] if alt else []) + \
+                  [{"op": "write", "s": R.join_view(v1)}, {"op": "flush"}, {"op": "write", "s": R.join_view(v2)}, {"op": "flush"},
+                   {"op": "write", "s": R.join_view(v3)}, {"op": "flush"}, {"op": "write", "s": R.join_view(v1)}, {"op": "flush"}]
+            cases.append({"w0": w, "h0": h, "history": [], "used": 0, "ops": ops})
     return cases
 
 
